@@ -57,7 +57,7 @@ class Check:
     scenario_wall_limit = 1500.0
     shrink_runs = 60
     shrink_wall_s = 400.0
-    rule = ('scenario = generated option project (top + subproject) + a seeded history of successful lifecycle commands + one '
+    rule = ('scenario = generated option project (top + subproject; in a third of the families a --native-file sets some of the options) + a seeded history of successful lifecycle commands + one '
             'mutating command under test (first setup / setup --reconfigure [-D] / setup --wipe / configure -D / configure -U), '
             'killed at file-system mutation point k (and, for write calls, after half of the data). thorough: every k of the '
             'command (chunks k mod m across scenarios); quick: every point touching a state file or that is a rename/unlink/rmdir, '
@@ -92,6 +92,17 @@ class Check:
             else frng.choice(['setup', 'reconfigure', 'reconfigure', 'wipe', 'wipe', 'configure', 'configure', 'configure-U', 'reconfigure-edit',
                               'setup-again', 'clearcache'])
         hist: T.List[T.Dict[str, T.Any]] = []
+        if frng.random() < 0.35:
+            # some option values come from a machine file given to the first setup: they are part of what the
+            # directory records (cmd_line.txt [properties], coredata.config_files) and must survive a kill as well
+            nat: T.Dict[str, T.Any] = {'project': {}, 'builtin': {}}
+            for o in frng.sample(spec['top'], min(len(spec['top']), frng.randint(1, 2))):
+                if o['type'] in ('string', 'boolean', 'integer', 'combo') and not o.get('yield'):
+                    nat['project'][o['name']] = P.draw_value(frng, o, True)
+            if frng.random() < 0.6:
+                nat['builtin']['warning_level'] = frng.choice(['0', '2', '3'])
+            if nat['project'] or nat['builtin']:
+                spec['native'] = nat
         work = copy.deepcopy(spec)
         if cmd_kind != 'setup':
             hist.append({'op': 'setup', 'D': P.draw_assignments(frng, work, frng.randint(0, 3))})
@@ -150,7 +161,8 @@ class Check:
         op = step['op']
         d = P.d_args(step.get('D') or {})
         if op == 'setup':
-            return ['setup', f"--backend={spec.get('backend', 'none')}", bd, sd] + d
+            nf = ['--native-file', os.path.join(os.path.dirname(bd), 'native.ini')] if spec.get('native') else []
+            return ['setup', f"--backend={spec.get('backend', 'none')}"] + nf + [bd, sd] + d
         if op == 'reconfigure':
             return ['setup', '--reconfigure', bd, sd] + d + (['--clearcache'] if step.get('clearcache') else [])
         if op == 'setup-again':
@@ -275,6 +287,12 @@ class Check:
         sd = os.path.join(root, 'src')
         bd = os.path.join(root, 'bd')
         P.render(spec, sd)
+        if spec.get('native'):
+            with open(os.path.join(root, 'native.ini'), 'w', encoding='utf-8') as f:
+                if spec['native'].get('project'):
+                    f.write('[project options]\n' + ''.join(f'{k} = {P.lit(v)}\n' for k, v in spec['native']['project'].items()))
+                if spec['native'].get('builtin'):
+                    f.write('[built-in options]\n' + ''.join(f'{k} = {P.lit(v)}\n' for k, v in spec['native']['builtin'].items()))
         probes: T.Dict[str, int] = {}
         faults: T.Dict[str, int] = {}
 
